@@ -1,3 +1,4 @@
+mod c11;
 mod e1;
 mod explore;
 mod families;
@@ -23,7 +24,11 @@ fn main() {
         usage();
     }
     // keep panics of the code under test quiet: they are caught and reported as findings
-    std::panic::set_hook(Box::new(|_| {}));
+    std::panic::set_hook(Box::new(|info| {
+        if std::env::var("VERIF_DEBUG").is_ok() {
+            eprintln!("panic: {info}");
+        }
+    }));
     let code = match args[1].as_str() {
         "check" => {
             if args.len() < 4 {
@@ -33,8 +38,10 @@ fn main() {
             match args[2].as_str() {
                 "C01" => c01(tier),
                 "C02" => c02(tier),
+                "C03" => c03(tier),
                 "C07" => c07(tier),
                 "C08" => c08(tier),
+                "C11" => c11check(tier),
                 "C14" => c14(tier),
                 "C20" => c20(tier),
                 _ => usage(),
@@ -157,5 +164,94 @@ fn c02(tier: &str) -> i32 {
         jobs.extend(jobs_from(families::c02_quick()).into_iter().map(|j| j.backend(lab::Bk::Sqlite)));
     }
     run_e1(jobs, &|cx, rep, _| props_e1::check_c02(cx, rep), &mut rep);
+    rep.finish()
+}
+
+fn c11check(tier: &str) -> i32 {
+    let mut rep = Report::new("C11", tier, "model_checking");
+    rep.rule = "lock-step product search over pairs (never-restarted, shadow) of one member on SQLite; restart of the shadow enabled in every pair state (= every subset of restart positions of every explored history); per edge: equal result kinds; per pair state: equal observable fingerprint and equal database dump; distinct = distinct (action class, results, shadow restarted since last agreement)".into();
+    let mut v = families::c01_quick();
+    v.truncate(if tier == "quick" { 4 } else { 100 });
+    v.extend(families::c02_quick().into_iter().take(if tier == "quick" { 2 } else { 100 }));
+    // an earlier commit (an older snapshot exists), then a race
+    v.push((families::base("commit-then-race", &["A", "B", "Z"], &["A", "B"], &[], vec![scenario::act("A", scenario::ActKind::Rename("pre".into()), 5).then(vec![scenario::act("A", scenario::ActKind::Rename("a".into()), 10), scenario::act("B", scenario::ActKind::Rename("b".into()), 20)])]), true));
+    if tier != "quick" {
+        v.extend(families::chains(2, 2));
+        v.extend(families::leaves());
+    }
+    let jobs: Vec<(scenario::Scenario, bool)> = match std::env::var("VERIF_ONLY") { Ok(f) => v.into_iter().filter(|j| j.0.name.contains(&f)).collect(), Err(_) => v };
+    let next = std::sync::atomic::AtomicUsize::new(0);
+    let out = std::sync::Mutex::new(Vec::new());
+    let max_pairs = if tier == "quick" { 1500 } else { 20000 };
+    std::thread::scope(|s| {
+        for _ in 0..threads() {
+            s.spawn(|| loop {
+                let i = next.fetch_add(1, std::sync::atomic::Ordering::SeqCst);
+                if i >= jobs.len() {
+                    break;
+                }
+                let mut r = Report::new("C11", tier, "model_checking");
+                match scenario::build_world(&jobs[i].0, lab::Bk::Sqlite) {
+                    Ok(w) => {
+                        let members: Vec<String> = if tier == "quick" { vec!["Z".into(), "B".into()] } else { w.initial.keys().cloned().collect() };
+                        for m in members {
+                            if w.initial.contains_key(&m) {
+                                c11::explore_pairs(&w, &m, explore::Regime::Causal, max_pairs, &mut r);
+                            }
+                        }
+                    }
+                    Err(e) => r.machinery_errors.push(format!("scenario {}: {}", jobs[i].0.name, e.0)),
+                }
+                out.lock().unwrap().push(r);
+            });
+        }
+    });
+    for r in out.into_inner().unwrap() {
+        rep.merge(r);
+    }
+    rep.add_count("scenarios", jobs.len() as u64);
+    rep.finish()
+}
+
+fn c03(tier: &str) -> i32 {
+    let mut rep = Report::new("C03", tier, "model_checking");
+    rep.rule = "membership histories; every observer (never-member with an unrelated group, ex-member, joiner, leaver) gets its own complete graph in the unrestricted regime over every wrapper and every welcome rumor ever published (process/accept/decline offered in every state); distinct = distinct (entitled, stored, record state)".into();
+    let v = families::c03_quick();
+    let mut jobs: Vec<E1Job> = Vec::new();
+    for (sc, _) in v {
+        let mut observers: Vec<String> = sc.outsiders.clone();
+        // members that are removed / leave somewhere, and joiners, are found from the scenario text
+        fn walk(n: &scenario::Node, out: &mut Vec<String>) {
+            for a in &n.acts {
+                match &a.kind {
+                    scenario::ActKind::Remove(x) | scenario::ActKind::Add(x) => out.push(x.clone()),
+                    scenario::ActKind::Leave => out.push(a.actor.clone()),
+                    _ => {}
+                }
+                if let Some(c) = &a.child {
+                    walk(c, out);
+                }
+            }
+        }
+        walk(&sc.root, &mut observers);
+        for (twin, of) in &sc.same_identity {
+            if observers.contains(of) {
+                observers.push(twin.clone());
+            }
+        }
+        observers.sort();
+        observers.dedup();
+        let mut j = E1Job::new(sc);
+        j.regimes = vec![explore::Regime::Unrestricted];
+        j.members = Some(observers);
+        j.with_welcomes = true;
+        j.welcome_consent = if tier == "quick" { 1 } else { 2 };
+        j.with_local_ops = false;
+        if tier != "quick" {
+            jobs.push(j.clone().backend(lab::Bk::Sqlite));
+        }
+        jobs.push(j);
+    }
+    run_e1(jobs, &|cx, rep, _| props_e1::check_c03(cx, rep), &mut rep);
     rep.finish()
 }
